@@ -6,7 +6,7 @@ use std::time::Instant;
 
 use serde_json::{Value, json};
 
-use crate::batch::{BatchOut, Found, run_batch};
+use crate::batch::{BatchOut, Found};
 use crate::families::Family;
 use crate::oracle::{Violation, check_all};
 use crate::runner::{Mode, RunOut, run_one};
@@ -302,6 +302,25 @@ pub fn run_check(spec: &PropSpec, tier: &str, base_seed: u64, threads: usize) ->
         "wall_s": wall,
         "violations": n_viol,
     });
+    let mut ev = ev;
+    if let Some(n) = fam_runs.get("C07X") {
+        let per = crate::families::C07X_PER_BASE;
+        ev["coverage"]["fault_enumeration"] = json!({
+            "family": "C07X",
+            "fault_points_executed": n,
+            "fault_points_per_base_scenario": per,
+            "base_scenarios_fully_enumerated": n / per,
+            "grid": {
+                "peer FIN / peer RST / write error at simulator step": format!("1..{}", crate::families::C07X_STEPS),
+                "peer stream ends (FIN / RST) after byte offset": format!("0..{}", crate::families::C07X_BYTES - 1),
+                "write fails after output byte offset": format!("0..{}", crate::families::C07X_OUT - 1),
+            },
+            "points_that_fired": {
+                "positioned_at_a_byte_of_the_peer_stream": merged.probes.get("close-at-byte"),
+                "positioned_at_a_byte_of_the_output": merged.probes.get("wr-err-at-byte"),
+            },
+        });
+    }
     let dir = out_dir().join("evidence");
     let _ = std::fs::create_dir_all(&dir);
     let _ = std::fs::write(dir.join(format!("{}.json", spec.id)), serde_json::to_string_pretty(&ev).unwrap());
